@@ -209,7 +209,7 @@ def spell(world, op, cwd, root_abs):
     p = op["path"]
     anchors = {
         "root": root_abs, "W": world.W, "outside": world.p("outside"), "sibling": world.p("root_sibling"), "cwd": cwd,
-        "static": world.p("static"), "root2": world.p("root2"), "fsroot": "/",
+        "static": world.p("static"), "root2": world.p("root2"), "fsroot": "/", "origroot": world.p("root"), "sub": world.p("root/sub"),
     }
     base = anchors[p["start"]]
     full = base
@@ -528,8 +528,14 @@ SEGS = ["..", ".", "a.sql", "sub", "sub/b.sql", "sub/deep/c.sql", "../root_sibli
         "a.sql/x", "", "deep", "b.sql", "s.sql", "o.sql", "r2.sql", "more", "m.sql", "inner/i.sql", "rel.sql", "etc", "hostname"]
 
 
-def gen_path(g, inside_bias=True):
+def gen_path(g, inside_bias=True, any_root=False):
     r = g.random()
+    if any_root and r < 0.6:
+        # threaded class: the root moves between root, root2 and root/sub, so aim at files of EVERY possible root -
+        # whichever is not in force right now is an outside path that exists
+        start, segs = g.choice([("origroot", ["a.sql"]), ("origroot", ["sub", "b.sql"]), ("origroot", []), ("root2", ["r2.sql"]), ("root2", []),
+                                ("root2", ["inner", "i.sql"]), ("sub", ["b.sql"]), ("sub", []), ("sub", ["deep", "c.sql"]), ("origroot", ["sub"])])
+        return {"start": start, "segs": list(segs), "abs": True}
     if inside_bias and r < 0.5:
         start = "root"
         segs = g.choice([["a.sql"], ["sub", "b.sql"], ["sub/deep/c.sql"], ["sub"], [], ["."], ["sub", "..", "a.sql"], ["sub", "deep", "..", "b.sql"], ["", "a.sql"], ["./a.sql"]])
@@ -542,8 +548,10 @@ def gen_path(g, inside_bias=True):
     return {"start": start, "segs": segs, "abs": g.random() < 0.65}
 
 
-def gen_request(g):
+def gen_request(g, threaded=False):
     r = g.random()
+    if threaded:
+        r = 0.3 + 0.7 * r  # POST routes: they are the ones that depend on the moving root
     if r < 0.17:
         pi = g.choice(["/", "/index.html", "/js/app.js", "/favicon.ico", "/js", "/../root/a.sql", "/js/../../outside/o.sql", "//etc/hostname", "/./index.html",
                        "/..", "/js/..%2f", "/nonexistent", "/js//app.js", "/" + "/".join(g.choice(SEGS) for _ in range(g.choice([1, 2, 3])))])
@@ -557,7 +565,7 @@ def gen_request(g):
         key = g.choice(["f", "f", "f", "d"])
     op = {"method": "POST", "route": route, "key": key}
     if key is not None:
-        op["path"] = gen_path(g)
+        op["path"] = gen_path(g, any_root=threaded)
     if route == "/lineage" and g.random() < 0.3:
         op["extra"] = {"dialect": g.choice(["ansi", "non-validating"])}
     if key == "d" and route != "/directory" and g.random() < 0.5:
@@ -583,12 +591,12 @@ def gen(seed, tier="quick") -> dict:
     if g.random() < 0.45:
         for _ in range(g.choice([1, 1, 2])):
             faults.append({"site": g.choice(["open", "open", "exists", "is_dir", "iterdir"]), "n": g.choice([0, 0, 1, 2, 3, 5, 8]), "errno": g.choice(ERRNOS)})
-    if cls < (0.8 if tier == "quick" else 0.6):
+    if cls < (0.65 if tier == "quick" else 0.5):
         ops = []
         for _ in range(g.choice([4, 8, 12, 20, 30])):
             ops.append(gen_admin(g) if g.random() < 0.15 else gen_request(g))
         return {"seed": seed, "clients": [ops], "faults": faults}
-    clients = [[gen_request(g) for _ in range(g.choice([2, 3, 5, 8]))] for _ in range(2)]
+    clients = [[gen_request(g, threaded=True) for _ in range(g.choice([3, 5, 8, 12]))] for _ in range(2)]
     admin = [{"op": "root_move", "to": g.choice(["root", "root2", "sub"]), "relative": False} for _ in range(g.choice([1, 2, 4, 6]))]
     return {"seed": seed, "clients": clients, "admin_thread": admin, "faults": faults,
             "sched": g.choice(["random", "sticky", "pct1", "pct2", "pct3", "retbias", "retbias", "retbias"]), "line": True,
@@ -597,7 +605,7 @@ def gen(seed, tier="quick") -> dict:
 
 def plan(seed: int, tier: str) -> list[dict]:
     master = stream(seed, "c17-plan")
-    n = {"quick": 12_000, "thorough": 300_000}[tier]
+    n = {"quick": 10_000, "thorough": 300_000}[tier]
     block = 50
     units = []
     for b in range(n // block):
